@@ -36,6 +36,11 @@ def setup(ex: Exec, ch: Choices, info: dict[str, Any]) -> None:
     info["stats"] = {"bloom_resets": 0, "restarts": 0, "filter_checks": 0, "crash": 0}
     if ch.flip("c09.crash", 0.3):
         w.crash_at = (ex.eng.client_commits + 1 + ch.pick("crash.k", 120), ch.choice("crash.when", ["before", "after"]))
+    if ch.flip("c09.busy", 0.35):
+        # one to three commits fail with "database is locked" (busy timeout) without any crash: the handler's own commit,
+        # or the processor's follow-up processed-mark / ack commit after the handler's effects are already durable
+        for _ in range(1 + ch.pick("c09.busy.n", 3)):
+            w.io_fault_commits[ex.eng.client_commits + 1 + ch.pick("c09.busy.k", 150)] = "database is locked"
     told: set[str] = set()
     info["filter_violation"] = None
 
